@@ -35,7 +35,7 @@ def reference_values(case, root, betas=None):
         env = refsem.Env(row=r, betas=betas if betas is not None else case['betas'],
                          shared=case['shared'])
         v = refsem.evaluate(root, env, refsem.EVAlg())
-        if v.e > 1e-7 * (1 + abs(v.v)):
+        if not v.e <= 1e-7 * (1 + abs(v.v)):
             raise refsem.IllPosed('error bound too large')
         out.append(v)
     return out
